@@ -39,10 +39,10 @@ def check(pm: ProgramModel, ctx: Ctx) -> None:
         # the step argument; the whole-function evaluation below still decides the abstract tree family
         ctx.unverified("C14-STEP", "shape", loc(fn.unit.path, fn.node), f"step check not applicable: {exc.reason}")
     # whole function on abstract trees (covers paths that leave before / around the loop) ------------
-    from .c16 import TREES, build_tree
+    from .c16 import tree_models
     from ..model import rich_model
     from ..roundtrip import features as all_features
-    models = {k: mb.model(build_tree(mb, spec), []) for k, spec in TREES.items()}
+    models = tree_models(mb)
     models["rich"] = rich_model(mb)
     for name, m in models.items():
         it = Interp(pm)
